@@ -210,6 +210,7 @@ func runC04(c *vlib.Ctx) {
 		n       int64
 		when    string
 		second  int64 // crash the recovery start-up at this write (0 = no second crash)
+		emptyMem bool // the death also left the store's next memtable file created but not yet sized (zero length)
 	}
 	var jobs []job
 	for wi, ref := range refs {
@@ -220,14 +221,17 @@ func runC04(c *vlib.Ctx) {
 			if names[wi] == "ids" && !c.Thorough() && n > ref.bootWr+40 && n%3 != 0 {
 				continue
 			}
-			jobs = append(jobs, job{wi, n, "before", 0})
+			jobs = append(jobs, job{wi, n, "before", 0, false})
 			if c.Thorough() || n%4 == 0 {
-				jobs = append(jobs, job{wi, n, "after", 0})
+				jobs = append(jobs, job{wi, n, "after", 0, false})
 			}
 			if c.Thorough() || n%9 == 0 {
 				for m := int64(1); m <= 8; m++ {
-					jobs = append(jobs, job{wi, n, "before", m})
+					jobs = append(jobs, job{wi, n, "before", m, false})
 				}
+			}
+			if n%7 == 0 || c.Thorough() && n%2 == 0 {
+				jobs = append(jobs, job{wi, n, "before", 0, true})
 			}
 		}
 	}
@@ -271,6 +275,13 @@ func runC04(c *vlib.Ctx) {
 				return // recovery issues fewer writes than m
 			}
 			cls += ":second-crash"
+		}
+		if j.emptyMem {
+			// Badger creates a memtable file and then sizes it; dying in between leaves NNNNN.mem with zero length.
+			// The kill points above sit at DVID's write units, so this torn state of the engine is injected explicitly.
+			c04InjectEmptyMemtable(dir)
+			cls += ":empty-memtable-file"
+			rep["injected"] = "zero-length next memtable file in every badger directory"
 		}
 		rec := vlib.RunWorker("wlrecover", []string{dir, name, "R"}, nil)
 		atomic.AddInt64(&recoveries, 1)
@@ -428,4 +439,26 @@ func lastLen(m []storage.LogMessage) int {
 		return 0
 	}
 	return len(m[len(m)-1].Data)
+}
+
+// c04InjectEmptyMemtable creates, in every Badger directory below dir, an empty memtable file with the next file id.
+func c04InjectEmptyMemtable(dir string) {
+	filepath.Walk(dir, func(p string, fi os.FileInfo, err error) error {
+		if err != nil || !fi.IsDir() {
+			return nil
+		}
+		mems, _ := filepath.Glob(filepath.Join(p, "*.mem"))
+		if _, e := os.Stat(filepath.Join(p, "MANIFEST")); e != nil {
+			return nil
+		}
+		next := 1
+		for _, m := range mems {
+			var id int
+			if _, e := fmt.Sscanf(filepath.Base(m), "%05d.mem", &id); e == nil && id >= next {
+				next = id + 1
+			}
+		}
+		os.WriteFile(filepath.Join(p, fmt.Sprintf("%05d.mem", next)), nil, 0644)
+		return nil
+	})
 }
